@@ -62,21 +62,21 @@ Print Assumptions C13_yaml_save_atomic.
     state Load rejects - it rebuilds exactly what a clean deployment builds and
     succeeds iff the clean one does *)
 Theorem C13_redeploy_completes :
-  forall crc cyid list_of info_of dinfo_of, crc_inj crc -> cyid_inj cyid ->
-  forall Hist, coherent Hist -> nonzero Hist ->
-  forall s a, In s Hist -> wf_srcs list_of info_of s -> Inv crc cyid Hist a ->
-  sub (fst (fst (deploy crc cyid list_of info_of dinfo_of s [])))
-      (fst (fst (deploy crc cyid list_of info_of dinfo_of s a))) /\
-  snd (deploy crc cyid list_of info_of dinfo_of s a) = snd (deploy crc cyid list_of info_of dinfo_of s []).
+  forall crc cyid list_of info_of dinfo_of deps_fn, crc_inj crc -> cyid_inj cyid ->
+  forall Hist, coherent Hist -> nonzero Hist -> deps_closed deps_fn Hist ->
+  forall s a, In s Hist -> wf_srcs list_of info_of deps_fn s -> Inv crc cyid deps_fn Hist a ->
+  sub (fst (fst (deploy crc cyid list_of info_of dinfo_of deps_fn s [])))
+      (fst (fst (deploy crc cyid list_of info_of dinfo_of deps_fn s a))) /\
+  snd (deploy crc cyid list_of info_of dinfo_of deps_fn s a) = snd (deploy crc cyid list_of info_of dinfo_of deps_fn s []).
 Proof. exact redeploy_completes. Qed.
 Print Assumptions C13_redeploy_completes.
 
 (** ... and it leaves the directory invariant again *)
 Theorem C13_redeploy_keeps_invariant :
-  forall crc cyid list_of info_of dinfo_of, crc_inj crc -> cyid_inj cyid ->
-  forall Hist, coherent Hist -> nonzero Hist ->
-  forall s a, In s Hist -> wf_srcs list_of info_of s -> Inv crc cyid Hist a ->
-  Inv crc cyid Hist (fst (fst (deploy crc cyid list_of info_of dinfo_of s a))).
+  forall crc cyid list_of info_of dinfo_of deps_fn, crc_inj crc -> cyid_inj cyid ->
+  forall Hist, coherent Hist -> nonzero Hist -> deps_closed deps_fn Hist ->
+  forall s a, In s Hist -> wf_srcs list_of info_of deps_fn s -> Inv crc cyid deps_fn Hist a ->
+  Inv crc cyid deps_fn Hist (fst (fst (deploy crc cyid list_of info_of dinfo_of deps_fn s a))).
 Proof. exact deploy_inv. Qed.
 Print Assumptions C13_redeploy_keeps_invariant.
 
@@ -94,7 +94,7 @@ Print Assumptions C13_missing_reverse_forces_rebuild.
 
 (** non-vacuity: a workspace meeting the hypotheses deploys (six artefacts) *)
 Theorem C13_nonvacuous :
-  wf_srcs demo_list_of demo_info_of demo_srcs /\ snd (demo_deploy demo_srcs []) = true /\
+  wf_srcs demo_list_of demo_info_of demo_deps demo_srcs /\ snd (demo_deploy demo_srcs []) = true /\
   builder_ok (demo_facts true true) KReverse = true.
 Proof. exact (conj wf_demo (conj (proj1 deploy_demo_runs) builder_ok_demo)). Qed.
 Print Assumptions C13_nonvacuous.
